@@ -42,7 +42,8 @@ class Contract:
     def __init__(self, qualname, props=(), requires=(), ensures=(), raises=None, modifies=(), loops=None,
                  types=None, returns=None, trusted=False, inline=False, pure=False, variant=None,
                  may_suspend=False, notes="", self_type=None, env=None, assume_no_raise=(), ghost=(),
-                 pre_lemmas=(), post_lemmas=(), verify=True, call_inline=False, abstract=False, yields=None):
+                 pre_lemmas=(), post_lemmas=(), verify=True, call_inline=False, abstract=False, yields=None,
+                 rely=(), rely_havoc=(), cancellable=False, ghost_exit=()):
         self.qualname = qualname
         self.props = tuple(props)
         self.requires = _clauses(requires, props)
@@ -66,6 +67,10 @@ class Contract:
         self.verify = verify and not trusted
         self.abstract = abstract        # base contract of an abstract method (overrides must refine)
         self.yields = yields
+        self.rely = _clauses(rely)
+        self.rely_havoc = [ast.parse(m.strip(), mode="eval").body for m in rely_havoc]
+        self.cancellable = cancellable
+        self.ghost_exit = list(ghost_exit)
 
     @property
     def key(self):
